@@ -244,7 +244,7 @@ TB_SER = "Impl/Serializer.v: hand model of detail::url_serializer / detail::url_
 
 TB_TRACE = "settrace: the call sequence of the hash / search / port / username / password / host / hostname setters is observed on the real url_parser::url_parse through a logging subclass of detail::url_setter (virtual members only; set_flag is seen as an added flag bit, potentially_strip_trailing_spaces is not seen); the setters' own glue code is repeated in harness/driver.cpp and its effect compared with the real setter on a second object"
 
-TB_PTRACE = "parsetrace: the call sequence of a parse (no base) is observed on the real url_parser::url_parse through a logging subclass of detail::url_serializer (virtual members only; set_flag not seen) and compared with emit_ops, the sequence C01_emit_repr is about (inputs: canonical hrefs with a host, a list path and a scheme other than file); the glue of url::do_parse (new_url, trimming, VALID flag) is repeated in harness/driver.cpp and its effect compared with the real parse"
+TB_PTRACE = "parsetrace: the call sequence of a parse (no base) is observed on the real url_parser::url_parse through a logging subclass of detail::url_serializer (virtual members only; set_flag not seen) and compared with emit_ops / emit_null_ops, the sequences C01_emit_repr / C01_emit_null_repr are about (inputs: canonical hrefs with a list path and a scheme other than file); the glue of url::do_parse (new_url, trimming, VALID flag) is repeated in harness/driver.cpp and its effect compared with the real parse"
 
 PROPS = {
     "C13": P("proof", streams=["setapply"], proof_search=c13_search, premain=True,
